@@ -92,7 +92,8 @@ func main() {
 	}
 
 	r.Rule = fmt.Sprintf("BFS over histories of Control API edits, alphabet of %d edits (add/patch/replace x 4 names x payloads, delete x 4 names, "+
-		"global and pathdefaults patches, valid and invalid), every edit tried in every reached state up to depth %d; "+
+		"global and pathdefaults patches, valid and invalid, incl. fields present with the zero value of their type: 0, false, empty list), "+
+		"every edit tried in every reached state up to depth %d; "+
 		"distinct = (kind, name, shape of the target before the edit, payload, outcome) classes", len(ops), depth)
 
 	root := &node{id: 0, model: initialModel(), depth: 0}
@@ -110,6 +111,13 @@ func main() {
 	outcomes := map[string]int{}
 	levelSizes := []int{1}
 	exhaustive := true
+	leafEdits := 0
+	nLeaf := 0
+	for _, o := range ops {
+		if o.Leaf {
+			nLeaf++
+		}
+	}
 
 	// determinism discipline: the root is expanded twice and must give identical results
 	{
@@ -245,6 +253,11 @@ func main() {
 					// the consequences of a first violation are shown by one more edit, not explored further
 					continue
 				}
+				if ops[oi].Leaf {
+					// judged in this state like every edit, but its successor state is not expanded (model.go)
+					leafEdits++
+					continue
+				}
 				key := or.NewKey + "|" + or.NewModel.Key() + "|" + taint
 				if seen[key] {
 					continue
@@ -276,7 +289,14 @@ func main() {
 	r.Set("traces_validated_against_impl", cores)
 	r.Set("http_requests", requests)
 	r.Set("returns_by_inverse_edit", undos)
-	r.Set("bound_completed", fmt.Sprintf("all histories of length <= %d (every edit of the alphabet in every state reached by < %d edits)", completedDepth, completedDepth))
+	bound := fmt.Sprintf("all histories of length <= %d (every edit of the alphabet in every state reached by < %d edits)", completedDepth, completedDepth)
+	if nLeaf > 0 {
+		bound = fmt.Sprintf("all histories of length <= %d whose edits but the last are among the %d non-leaf edits (every one of the %d edits, incl. the %d "+
+			"zero-valued leaf edits, in every state reached by < %d non-leaf edits)", completedDepth, len(ops)-nLeaf, len(ops), nLeaf, completedDepth)
+	}
+	r.Set("bound_completed", bound)
+	r.Set("leaf_edits_in_alphabet", nLeaf)
+	r.Set("leaf_edit_successors_not_expanded", leafEdits)
 	r.Set("new_states_per_depth", levelSizes)
 	r.Set("alphabet_size", len(ops))
 	var ocs []string
@@ -296,6 +316,8 @@ func main() {
 		"patch or replace of a missing name: the statement is silent, failure (nothing changes) and creation with exactly the given fields are both accepted",
 		"failure = any 4xx status; null and [] are equal in JSON comparisons; the private API port is masked",
 		"alphabet: 4 names x the listed payloads; credentials, nested structures (forward) and explicit nulls are outside the alphabet",
+		"quick tier: the zero-valued edits (0 / false / empty list in a present field) are leaves: applied and judged in every reached state, their successor states are not expanded (thorough: full members)",
+		"besides the differential expectation, every accepted edit is judged without conf.Load: each field of the reference state must be contained in the corresponding read, every other field of a path read must equal the path defaults read",
 	}
 	if len(outcomes) < 6 {
 		fail("vacuous: only %d outcome classes", len(outcomes))
